@@ -53,7 +53,7 @@ type evCase struct {
 }
 
 func run(c *kit.Ctx) {
-	n := c.N(240, 4800)
+	n := c.N(240, 2400)
 	for i := 0; i < n; i++ {
 		id := fmt.Sprintf("c%d", i)
 		if !c.Mine(i, id) {
